@@ -180,7 +180,7 @@ def sequence_cases(tier):
             text = (unit * (n // len(unit) + 1))[:n]
             for ci, kw in enumerate(({'symbol_count': 2}, {'symbol_count': 3}, {'version': 1}, {'version': 2, 'error': 'M'},
                                      {'symbol_count': 4, 'error': 'Q'}, {'symbol_count': 2, 'boost_error': False, 'error': 'M'},
-                                     {'version': 1, 'boost_error': False}, {'symbol_count': 5, 'error': 'H'})):
+                                     {'version': 1, 'boost_error': False}, {'symbol_count': 5, 'error': 'H'}, {'symbol_count': 1}, {'symbol_count': 1, 'error': 'Q'})):
                 if 'version' in kw and n > 150:
                     continue  # keeps clear of the 16 symbol limit (known finding K3 of C08)
                 if (n + ci) % 2 and tier == 'quick' and n > 40:
@@ -209,6 +209,6 @@ def phases(tier, seed):
         Enum('levels', lambda: level_cases(tier), exhaustive=True,
              note='exact-fit lengths of every level of the listed versions x requested level x boost x version requested'),
         Enum('sequences', lambda: sequence_cases(tier), exhaustive=False,
-             note='every symbol of Structured Append sequences: content lengths 2..119 (thorough: ..699) x 3 modes x 8 option sets'),
+             note='every symbol of Structured Append sequences: content lengths 2..119 (thorough: ..699) x 3 modes x 10 option sets incl. symbol_count=1'),
         Search('free', gens.make_cases(big=0.05), n),
     ] + _fuzz(tier)
